@@ -92,10 +92,14 @@ func repoAllBlocked() (bool, int, string) {
 	return allBlocked && found > 0, found, dump
 }
 
+// realStderr is the process's stderr as it was at start-up (some monitors point
+// os.Stderr elsewhere for a while to keep the log small).
+var realStderr = os.Stderr
+
 func hangExit(what, verdict, dump string) {
-	fmt.Fprintf(os.Stderr, "watchdog: %s\n", what)
-	fmt.Fprintln(os.Stderr, "HANG-VERDICT: "+verdict)
-	fmt.Fprintln(os.Stderr, dump)
+	fmt.Fprintf(realStderr, "watchdog: %s\n", what)
+	fmt.Fprintln(realStderr, "HANG-VERDICT: "+verdict)
+	fmt.Fprintln(realStderr, dump)
 	os.Exit(4)
 }
 
